@@ -71,10 +71,11 @@ package pcache
 
 // Sources are interfaces implemented outside this package. ASSUMED: a successful
 // FetchAll returns no nil record (a nil element would be dereferenced).
+// (a source may hand back a list with nil entries - the HTTP source does for a JSON list containing null;
+// nothing is assumed about the entries)
 //@ iface ProviderSource.FetchAll
 //@   pure
 //@   requires arg1 != nil
-//@   ensures-assumed result1 == nil ==> forall(j, 0, len(result0), result0[j] != nil)
 //@ iface ProviderSource.Fetch
 //@   pure
 //@   requires arg1 != nil
@@ -102,22 +103,22 @@ package pcache
 //@   at call Store#2: assert isfresh(arg1)
 //@   at call needMerge: assume arg0 < 2147483648 && arg1 < 2147483648
 //@   loop 1: invariant pcOK(pc) && held(pc.writeLock) && pc.seq == seq && seq != old(pc.seq) && rangeindex < len(pc.sources)
-//@   loop 2: invariant pcOK(pc) && held(pc.writeLock) && pc.seq == seq && seq != old(pc.seq) && rangeindex < len(fetchedInfos) && forall(j, 0, len(fetchedInfos), fetchedInfos[j] != nil)
+//@   loop 2: invariant pcOK(pc) && held(pc.writeLock) && pc.seq == seq && seq != old(pc.seq) && rangeindex < len(fetchedInfos)
 // merge rule, per fetched record (from the property: the record bearing the most recent
 // advertisement time wins; a record seen again is marked present and its expiry disarmed):
 //@   loop 2: iteration ghost had := has(pc.write, fetchedInfos[rangeindex + 1].AddrInfo.ID)
 //@   loop 2: iteration ghost lu0 := pc.write[fetchedInfos[rangeindex + 1].AddrInfo.ID].lastUpdate
 //@   loop 2: iteration ghost p0 := pc.write[fetchedInfos[rangeindex + 1].AddrInfo.ID].provider
 //@   loop 2: iteration ghost us0 := pc.write[fetchedInfos[rangeindex + 1].AddrInfo.ID].updateSeq
-//@   loop 2: iteration ensures has(pc.write, fetchedInfos[rangeindex].AddrInfo.ID) && pc.write[fetchedInfos[rangeindex].AddrInfo.ID].seq == seq
-//@   loop 2: iteration ensures !had ==> pc.write[fetchedInfos[rangeindex].AddrInfo.ID].provider == fetchedInfos[rangeindex] && pc.write[fetchedInfos[rangeindex].AddrInfo.ID].updateSeq == seq
+//@   loop 2: iteration ensures fetchedInfos[rangeindex] != nil ==> (has(pc.write, fetchedInfos[rangeindex].AddrInfo.ID) && pc.write[fetchedInfos[rangeindex].AddrInfo.ID].seq == seq)
+//@   loop 2: iteration ensures fetchedInfos[rangeindex] != nil ==> (!had ==> pc.write[fetchedInfos[rangeindex].AddrInfo.ID].provider == fetchedInfos[rangeindex] && pc.write[fetchedInfos[rangeindex].AddrInfo.ID].updateSeq == seq)
 // a new record is entered with its own advertisement time (so that a later, older record cannot replace it):
-//@   loop 2: iteration ensures !had ==> pc.write[fetchedInfos[rangeindex].AddrInfo.ID].lastUpdate == parsedTime(str(time.RFC3339), str(fetchedInfos[rangeindex].LastAdvertisementTime))
+//@   loop 2: iteration ensures fetchedInfos[rangeindex] != nil ==> (!had ==> pc.write[fetchedInfos[rangeindex].AddrInfo.ID].lastUpdate == parsedTime(str(time.RFC3339), str(fetchedInfos[rangeindex].LastAdvertisementTime)))
 // a record seen again replaces the cached one exactly when its advertisement time (the epoch if absent) is later:
-//@   loop 2: iteration ensures had && effTime(str(fetchedInfos[rangeindex].LastAdvertisementTime)) > lu0 ==> pc.write[fetchedInfos[rangeindex].AddrInfo.ID].provider == fetchedInfos[rangeindex] && pc.write[fetchedInfos[rangeindex].AddrInfo.ID].updateSeq == seq && pc.write[fetchedInfos[rangeindex].AddrInfo.ID].lastUpdate == effTime(str(fetchedInfos[rangeindex].LastAdvertisementTime))
-//@   loop 2: iteration ensures had && effTime(str(fetchedInfos[rangeindex].LastAdvertisementTime)) <= lu0 ==> pc.write[fetchedInfos[rangeindex].AddrInfo.ID].provider == p0 && pc.write[fetchedInfos[rangeindex].AddrInfo.ID].updateSeq == us0 && pc.write[fetchedInfos[rangeindex].AddrInfo.ID].lastUpdate == lu0
-//@   loop 2: iteration ensures had ==> pc.write[fetchedInfos[rangeindex].AddrInfo.ID].expiresAt == zero("time.Time") && pc.write[fetchedInfos[rangeindex].AddrInfo.ID].lastUpdate >= lu0
-//@   loop 2: iteration ensures had ==> (pc.write[fetchedInfos[rangeindex].AddrInfo.ID].provider == p0 && pc.write[fetchedInfos[rangeindex].AddrInfo.ID].updateSeq == us0 && pc.write[fetchedInfos[rangeindex].AddrInfo.ID].lastUpdate == lu0) || (pc.write[fetchedInfos[rangeindex].AddrInfo.ID].provider == fetchedInfos[rangeindex] && pc.write[fetchedInfos[rangeindex].AddrInfo.ID].updateSeq == seq && pc.write[fetchedInfos[rangeindex].AddrInfo.ID].lastUpdate > lu0)
+//@   loop 2: iteration ensures fetchedInfos[rangeindex] != nil ==> (had && effTime(str(fetchedInfos[rangeindex].LastAdvertisementTime)) > lu0 ==> pc.write[fetchedInfos[rangeindex].AddrInfo.ID].provider == fetchedInfos[rangeindex] && pc.write[fetchedInfos[rangeindex].AddrInfo.ID].updateSeq == seq && pc.write[fetchedInfos[rangeindex].AddrInfo.ID].lastUpdate == effTime(str(fetchedInfos[rangeindex].LastAdvertisementTime)))
+//@   loop 2: iteration ensures fetchedInfos[rangeindex] != nil ==> (had && effTime(str(fetchedInfos[rangeindex].LastAdvertisementTime)) <= lu0 ==> pc.write[fetchedInfos[rangeindex].AddrInfo.ID].provider == p0 && pc.write[fetchedInfos[rangeindex].AddrInfo.ID].updateSeq == us0 && pc.write[fetchedInfos[rangeindex].AddrInfo.ID].lastUpdate == lu0)
+//@   loop 2: iteration ensures fetchedInfos[rangeindex] != nil ==> (had ==> pc.write[fetchedInfos[rangeindex].AddrInfo.ID].expiresAt == zero("time.Time") && pc.write[fetchedInfos[rangeindex].AddrInfo.ID].lastUpdate >= lu0)
+//@   loop 2: iteration ensures fetchedInfos[rangeindex] != nil ==> (had ==> (pc.write[fetchedInfos[rangeindex].AddrInfo.ID].provider == p0 && pc.write[fetchedInfos[rangeindex].AddrInfo.ID].updateSeq == us0 && pc.write[fetchedInfos[rangeindex].AddrInfo.ID].lastUpdate == lu0) || (pc.write[fetchedInfos[rangeindex].AddrInfo.ID].provider == fetchedInfos[rangeindex] && pc.write[fetchedInfos[rangeindex].AddrInfo.ID].updateSeq == seq && pc.write[fetchedInfos[rangeindex].AddrInfo.ID].lastUpdate > lu0))
 //@   loop 3: invariant pcOK(pc) && held(pc.writeLock) && pc.seq == seq && seq != old(pc.seq) && updates != nil && isfresh(updates)
 //@   loop 4: invariant pcOK(pc) && held(pc.writeLock) && pc.seq == seq && seq != old(pc.seq) && updates != nil && isfresh(updates)
 //@   loop 5: invariant pcOK(pc) && held(pc.writeLock) && pc.seq == seq && seq != old(pc.seq) && updates != nil && isfresh(updates) && m != nil && isfresh(m)
